@@ -174,6 +174,11 @@ def _gen_cases(tier, seed):
             if N >= 2:
                 for _ in range(9):
                     yield C(w="innerprod", shape=list(shp), ka="tensor", kb="tensor", fill="all", fillB="all")
+    # sums whose parts hold whole numbers in an integer element type, multiplied by integer vectors in every mode (the parts' products are
+    # Python / NumPy integers, not floats)
+    for shp in ((2, 2), (3, 2, 2), (4,)):
+        for nparts in (1, 2, 3):
+            yield C(w="sum_int_ttv", shape=list(shp), nparts=nparts)
     # two sparse operands over one set of positions (a model evaluated on the data's entries), each with its own stored order and values;
     # and two operands with equally many entries whose position sets differ in one / in all positions
     for N in range(1, 4):
@@ -517,6 +522,23 @@ def _w_innerprod_pattern(case, ctx, rng, shape, N):
         ctx.tag(f"innerprod sparse pair, positions {rel}")
         ctx.check(np.ndim(got) == 0 and float(got) == want, "sptensor.innerprod", "WRONG",
                   lambda: f"<X,Y> = {got!r} want {want!r} (integer values; X subs {X.subs.tolist()} vals {X.vals.ravel().tolist()}; Y subs {Y.subs.tolist()} vals {Y.vals.ravel().tolist()})")
+
+
+def _w_sum_int_ttv(case, ctx, rng, shape, N):
+    parts = [rng.integers(-3, 4, size=shape) for _ in range(case["nparts"])]
+    vecs = [rng.integers(-2, 3, size=(s_,)) for s_ in shape]
+    ST = ttb.sumtensor([ttb.tensor(p_.copy()) for p_ in parts])
+    total = sum(parts)
+    ctx.feat(parts=case["nparts"], integer_parts=True)
+    for k_ in range(1, N + 1):
+        # the first k modes, and all of them (a number)
+        dims = np.arange(k_)
+        want = refops.ttv(total.astype(float), [vecs[m].astype(float) for m in range(k_)], list(range(k_)))
+        got, ok = _try(ctx, "sumtensor.ttv", ST.ttv, [v.copy() for v in vecs[:k_]], dims)
+        if ok:
+            g_ = float(got) if np.ndim(got) == 0 and not hasattr(got, "parts") else denote(got)
+            ctx.check(np.shape(g_) == np.shape(want) and bool(np.all(np.asarray(g_) == np.asarray(want))), "sumtensor.ttv", "WRONG",
+                      lambda: f"integer parts, modes 0..{k_ - 1}: got {np.asarray(g_).tolist()} want {np.asarray(want).tolist()}")
 
 
 def _w_norm(case, ctx, rng, shape, N):
